@@ -2,7 +2,7 @@
    Only statements here; proofs are in C02Proofs.v and the files it imports. *)
 From Coq Require Import List NArith Bool Arith.
 Import ListNotations.
-Require Import V.Regex V.Abnf V.Parse V.ParseProofs V.Parse2 V.Parse2Proofs V.Factor V.BridgePaths V.C02Bridge V.C02Proofs.
+Require Import V.Regex V.Abnf V.Parse V.ParseProofs V.Parse2 V.Parse2Proofs V.Factor V.BridgePaths V.C02Bridge V.C02Proofs V.Utf8.
 Local Open Scope nat_scope.
 
 (* Every string of the RFC 3986 URI-reference language is the section 5.3 composition of valid
@@ -26,6 +26,15 @@ Theorem C02_iri : forall s, L (IRI I C02Bridge.P) s ->
   exists p sch, valid_parts_I p /\ p_scheme p = Some sch /\ decomposition_ok s p /\ abs_parts s 0 = expected p /\ scheme_range s 0 = (0, length sch).
 Proof. exact iri_decomposition. Qed.
 Print Assumptions C02_iri.
+
+(* An IRI is held as UTF-8 BYTES and the scanners run on those bytes.  Every scanner theorem above carries
+   over verbatim: for every Unicode string s of the IRI-reference language (code points), the byte string
+   utf8 s is compose of the UTF-8 encoded components, and on it reference_parts and every find_* return exactly
+   the byte ranges of those components. *)
+Theorem C02_iri_reference_bytes : forall s, L (IRI_reference I C02Bridge.P) s ->
+  exists p, valid_parts_I p /\ s = compose p /\ decomposition_ok (utf8 s) (map_parts utf8 p).
+Proof. exact iri_reference_bytes. Qed.
+Print Assumptions C02_iri_reference_bytes.
 
 (* The ranges denote the components, so recomposing the reported slices reproduces the text and each
    reported component is the valid component it was composed from. *)
